@@ -32,7 +32,7 @@ use crate::zonetree::types::{
 use crate::zonetree::{Rrset, SharedRr};
 use crate::zonetree::{SharedRrset, WritableZone, WritableZoneNode};
 
-use super::nodes::{Special, ZoneApex, ZoneNode};
+use super::nodes::{NodeRrsets, Special, ZoneApex, ZoneNode};
 use super::versioned::{Version, VersionMarker};
 
 //------------ WriteZone -----------------------------------------------------
@@ -449,6 +449,66 @@ impl WriteNode {
         Ok(node)
     }
 
+    /// Records how the RRset of the given type differs from the published one.
+    ///
+    /// The entries for the RRset in the diff being built, if any, are
+    /// replaced: they always describe the step from the last published
+    /// version of the zone to the given pending RRset, no matter how often
+    /// the RRset is changed while the new version is being prepared.
+    fn record_diff(
+        &self,
+        rrsets: &NodeRrsets,
+        rtype: Rtype,
+        new_rrset: Option<&SharedRrset>,
+    ) {
+        let Some((owner, diff)) = &self.diff else {
+            return;
+        };
+
+        let old_rrset = rrsets
+            .get(rtype, self.zone.last_published_version())
+            .filter(|rrset| !rrset.is_empty());
+        let new_rrset = new_rrset.filter(|rrset| !rrset.is_empty());
+
+        let (removed, added) = match (old_rrset, new_rrset) {
+            (Some(old), Some(new)) if old.ttl() != new.ttl() => {
+                // A changed TTL changes every record of the RRset.
+                (Some(old), Some(new.clone()))
+            }
+            (Some(old), Some(new)) => {
+                let mut removed = Rrset::new(rtype, old.ttl());
+                for rr in
+                    old.data().iter().filter(|rr| !new.data().contains(rr))
+                {
+                    removed.push_data(rr.clone());
+                }
+                let mut added = Rrset::new(rtype, new.ttl());
+                for rr in
+                    new.data().iter().filter(|rr| !old.data().contains(rr))
+                {
+                    added.push_data(rr.clone());
+                }
+                (
+                    (!removed.is_empty()).then(|| SharedRrset::new(removed)),
+                    (!added.is_empty()).then(|| SharedRrset::new(added)),
+                )
+            }
+            (old, new) => (old, new.cloned()),
+        };
+
+        trace!("Diff: {owner} {rtype}: removed {removed:?}, added {added:?}");
+
+        let mut diff = diff.lock().unwrap();
+        match removed {
+            Some(rrset) => diff.remove(owner.clone(), rtype, rrset),
+            None => diff.clear_removed(owner, rtype),
+        }
+        match added {
+            Some(rrset) => diff.add(owner.clone(), rtype, rrset),
+            None => diff.clear_added(owner, rtype),
+        }
+    }
+
     fn update_rrset(&self, new_rrset: SharedRrset) -> Result<(), io::Error> {
         let rrsets = match self.node {
             Either::Right(ref apex) => apex.rrsets(),
@@ -456,99 +516,7 @@ impl WriteNode {
         };
 
         trace!("Updating RRset");
-        if let Some((owner, diff)) = &self.diff {
-            let current_rrset = if let Some(current_rrset) = rrsets
-                .get(new_rrset.rtype(), self.zone.last_published_version())
-            {
-                let changed = new_rrset != current_rrset;
-
-                if changed && !current_rrset.is_empty() {
-                    Some(current_rrset)
-                } else {
-                    None
-                }
-            } else {
-                None
-            };
-
-            match (current_rrset.is_some(), !new_rrset.is_empty()) {
-                (true, true) => {
-                    trace!(
-                        "Diff detected: update of existing RRSET - recording change of RRSET from {current_rrset:?} to {new_rrset:#?}"
-                    );
-
-                    // Check each resource record in the RRset being updated
-                    // to see if it is missing from the new RRSet.
-                    let new_rrs = new_rrset.as_rrset().data();
-                    let mut removed_rrs =
-                        Rrset::new(new_rrset.rtype(), new_rrset.ttl());
-                    for removed_rr in current_rrset
-                        .as_ref()
-                        .unwrap()
-                        .as_rrset()
-                        .data()
-                        .iter()
-                        .filter(|rr| !new_rrs.contains(rr))
-                    {
-                        removed_rrs.push_data(removed_rr.clone());
-                    }
-
-                    if !removed_rrs.is_empty() {
-                        diff.lock().unwrap().remove(
-                            owner.clone(),
-                            new_rrset.rtype(),
-                            SharedRrset::new(removed_rrs),
-                        );
-                    }
-
-                    // Check each resource record in the new RRset to see if
-                    // it is missing from the RRset being updated.
-                    let old_rrs =
-                        current_rrset.as_ref().unwrap().as_rrset().data();
-                    let mut added_rrs =
-                        Rrset::new(new_rrset.rtype(), new_rrset.ttl());
-                    for added_rr in new_rrset
-                        .as_rrset()
-                        .data()
-                        .iter()
-                        .filter(|rr| !old_rrs.contains(rr))
-                    {
-                        added_rrs.push_data(added_rr.clone());
-                    }
-
-                    if !added_rrs.is_empty() {
-                        diff.lock().unwrap().add(
-                            owner.clone(),
-                            new_rrset.rtype(),
-                            SharedRrset::new(added_rrs),
-                        );
-                    }
-                }
-                (true, false) => {
-                    trace!(
-                        "Diff detected: update of existing RRSET - recording removal of the current RRSET {current_rrset:#?}"
-                    );
-                    diff.lock().unwrap().remove(
-                        owner.clone(),
-                        new_rrset.rtype(),
-                        current_rrset.unwrap().clone(),
-                    );
-                }
-                (false, true) => {
-                    trace!(
-                        "Diff detected: update of existing RRSET - recording addition of new RRSET {new_rrset:#?}"
-                    );
-                    diff.lock().unwrap().add(
-                        owner.clone(),
-                        new_rrset.rtype(),
-                        new_rrset.clone(),
-                    );
-                }
-                (false, false) => {
-                    // NOOP
-                }
-            }
-        }
+        self.record_diff(rrsets, new_rrset.rtype(), Some(&new_rrset));
 
         rrsets.update(new_rrset, self.zone.new_version);
         #[cfg(feature = "verif-hooks")]
@@ -575,20 +543,7 @@ impl WriteNode {
             Either::Right(ref node) => node.rrsets(),
         };
 
-        if let Some((owner, diff)) = &self.diff {
-            if let Some(removed) =
-                rrsets.get(rtype, self.zone.last_published_version())
-            {
-                trace!(
-                    "Diff detected: removal of existing RRSET: {removed:#?}"
-                );
-                diff.lock().unwrap().remove(
-                    owner.clone(),
-                    rtype,
-                    removed.clone(),
-                );
-            }
-        }
+        self.record_diff(rrsets, rtype, None);
 
         rrsets.remove_rtype(rtype, self.zone.new_version);
         self.check_nx_domain()?;
